@@ -850,14 +850,17 @@ C07_OneLegalOutcome ==
      \/ rp[r].sid \in OSids /\ ws[rp[r].sid].closeDeliv /\ ResMatchesClose(rp[r].cRes, ws[rp[r].sid].close)
      \/ LocalOK(r, rp[r].cRes)
 \* cancelled / expired at the caller: no caller op of that RPC stays blocked
+\* (with a bounded carrier - C05's domain, not C07's - an op can be blocked inside the transport's own
+\* Send, which no RPC context can interrupt: these two formulas are judged on unbounded carriers)
+Unbounded == cfg.cap = 0
 C07_CallerEndsAlone ==
-  (q.at /\ q.parked = <<>>) => \A b \in BlockedOps : (b[1] = "c" /\ b[2] \in ORpcs) => rp[b[2]].localCause = {}
+  (q.at /\ q.parked = <<>> /\ Unbounded) => \A b \in BlockedOps : (b[1] = "c" /\ b[2] \in ORpcs) => rp[b[2]].localCause = {}
 \* once the cancel notice was delivered the handler's context is done and none
 \* of its ops stays blocked
 HandlerCtxDone(r) == \E i \in 1..Len(q.h) : q.h[i][1] = r /\ q.h[i][2] = 1
 HandlerLive(r) == \E i \in 1..Len(q.h) : q.h[i][1] = r
 C07_HandlerReleased ==
-  (q.at /\ q.parked = <<>>) => \A s \in OSids : (ws[s].cancelDeliv /\ ws[s].rpc # 0) =>
+  (q.at /\ q.parked = <<>> /\ Unbounded) => \A s \in OSids : (ws[s].cancelDeliv /\ ws[s].rpc # 0) =>
      /\ HandlerLive(ws[s].rpc) => HandlerCtxDone(ws[s].rpc)
      /\ \A b \in BlockedOps : ~(b[1] = "s" /\ b[2] = ws[s].rpc)
 
